@@ -103,3 +103,8 @@ TEXT["C11"] = dict(text="Coq theorems: IP-ID blocks from ANY allocation sequence
     "Correspondence: real allocators (sequential + concurrent goroutines) vs the model; real driver pairs alive together, each fed the other's genuine replies.",
     note="PARTIAL: the full lift 'k runs on a shared wire each produce their solo result' is not proved on the engine level and the shared-wire multi-run engine lab is not built; cross-protocol pairs are correspondence-only. Residues named in DESIGN (relaxed SACK to one target, Paris mode, UDP fixed IP-ID block).",
     technique="Coq proof (modular arithmetic over all counter values; identifier-collision lemma on the genuineness predicate) + differential run of real allocators and of real driver pairs")
+
+TEXT["C10"] = dict(text="Coq theorems over EVERY plan of engine operations and EVERY injected fault (operation, k, class) of the lifecycle program: handles opened are closed exactly once and never used afterwards, the outcome is a success or an error that keeps the cause (zero-length read excepted), an unreached fault changes nothing; never a partial path (C03). "
+    "Correspondence + fault enumeration: the real entry points (udp/icmp v4+v6, tcp syn; SACK via the policy lab) over the simulated wire with one fault at every reachable (operation, k) x class.",
+    note="PARTIAL: the lifecycle program abstracts the entry points' control flow by hand; goroutine termination is observed, not proved; faults below the Source/Sink seam are out of reach.",
+    technique="Coq proof over an abstract lifecycle program (all plans, all faults) + exhaustive fault injection into the real entry points over a simulated wire")
